@@ -200,7 +200,7 @@ pub struct WireLog {
     pub packets: usize,
 }
 impl WireLog {
-    pub fn record(&mut self, packets: &[&Packet], mut taps: Vec<SerializedHeader>) {
+    pub fn record(&mut self, packets: &[&Packet], mut taps: Vec<SerializedHeader>, site: &str) {
         let ser = |t: &SerializedHeader, line: usize, drop: bool| -> Value {
             json!({"ev":"Ser","ty":t.type_id,"msid":w(t.message_stream_id),"ts":w(t.timestamp),"len":t.length,
                    "data":segs(&t.data),"fu":t.force_uncompressed,"cd":t.can_be_dropped,"res":"ok","drop":drop,
@@ -230,7 +230,7 @@ impl WireLog {
             self.lost += 1;
             let line = self.run.next_line();
             let mut v = ser(&t, line, t.can_be_dropped);
-            v["lost"] = json!(true);
+            v["lost"] = json!(site); // which call serialized it and then failed
             let out = t.output.clone();
             self.run.wire(v, &out, true, true);
         }
